@@ -86,12 +86,12 @@ def run_case(case):
     contracts.reset()
     try:
         built = inproc.build(sources, cfg, normalised=norm)
-    except OverflowError as e:
-        # an explicit refusal because a value does not fit the OpenType field is a legal outcome
-        res["counters"]["build_refused_overflow"] = 1
-        res["tags"].append("refused-overflow")
-        return res
     except Exception as e:
+        if rc.is_overflow_refusal(e):
+            # an explicit refusal because a value does not fit the OpenType field is a legal outcome
+            res["counters"]["build_refused_overflow"] = 1
+            res["tags"].append("refused-overflow")
+            return res
         res["violations"].append({"what": f"build raised {type(e).__name__}: {str(e)[:300]}", "mechanism": None, "trace": traceback.format_exc()[-1500:], "config": cfg})
         return res
     problems, stats = rc.check_colr_font(built)
